@@ -468,7 +468,7 @@ func (ctx Ctx) packageMethod(f *ast.SelectorExpr,
 	//  GooseLang, so it's ok to skip the arguments.
 	//
 	// See https://github.com/mit-pdos/goose-nfsd/blob/master/util/util.go
-	if isIdent(f.X, "util") && f.Sel.Name == "DPrintf" {
+	if isIdent(f.X, "util") && f.Sel.Name == "DPrintf" && ctx.isVariadic(call) {
 		return coq.NewCallExpr(coq.GallinaIdent("util.DPrintf"),
 			ctx.expr(args[0]),
 			ctx.expr(args[1]),
@@ -586,9 +586,14 @@ func (ctx Ctx) newCoqCallWithExpr(method coq.Expr, es []ast.Expr) coq.CallExpr {
 // checkNotVariadic rejects calls of variadic functions and methods: the
 // arguments would be passed one by one instead of as a slice
 func (ctx Ctx) checkNotVariadic(call *ast.CallExpr) {
-	if sig, ok := ctx.typeOf(call.Fun).(*types.Signature); ok && sig.Variadic() {
+	if ctx.isVariadic(call) {
 		ctx.unsupported(call, "call of a variadic function")
 	}
+}
+
+func (ctx Ctx) isVariadic(call *ast.CallExpr) bool {
+	sig, ok := ctx.typeOf(call.Fun).(*types.Signature)
+	return ok && sig.Variadic()
 }
 
 func (ctx Ctx) methodExpr(call *ast.CallExpr) coq.Expr {
